@@ -53,6 +53,10 @@ type MyMap map[string]string
 
 const nOtherTags = 11
 
+// ptrToZero: the payload of a pointer chunk (tags 4, 5) that is a NON-NIL pointer to the zero struct (&S0{}): a
+// non-zero value for reflect's IsZero (only the nil pointer, payload 0, is the zero value of a pointer type)
+const ptrToZero = 1000
+
 // 10: the TWIN of S0 — a different Go type with the same name and the same package path (a type declared
 // inside a function): reflect.Type identity tells the two apart, their printed name "main.S0" does not.
 // Only reachable through these three closures (the type has no name at package level).
@@ -96,6 +100,9 @@ func otherToGo(tag, p int, variant string) any {
 		if p == 0 {
 			return (*S0)(nil)
 		}
+		if p == ptrToZero {
+			return &S0{} // a non-nil pointer to the zero struct: not the zero value of *S0
+		}
 		return &S0{A: p}
 	case 6:
 		return Acc{N: p}
@@ -113,6 +120,9 @@ func otherToGo(tag, p int, variant string) any {
 	default:
 		if p == 0 {
 			return (*S1)(nil)
+		}
+		if p == ptrToZero {
+			return &S1{}
 		}
 		return &S1{B: p}
 	}
@@ -233,10 +243,16 @@ func fromGo(x any) *CV {
 		if t == nil {
 			return &CV{K: "other", Tag: 4, P: 0}
 		}
+		if t.A == 0 {
+			return &CV{K: "other", Tag: 4, P: ptrToZero}
+		}
 		return &CV{K: "other", Tag: 4, P: t.A}
 	case *S1:
 		if t == nil {
 			return &CV{K: "other", Tag: 5, P: 0}
+		}
+		if t.B == 0 {
+			return &CV{K: "other", Tag: 5, P: ptrToZero}
 		}
 		return &CV{K: "other", Tag: 5, P: t.B}
 	case Acc:
@@ -687,6 +703,9 @@ func genVal(r *lib.Rng, td, depth int) *CV {
 	case tdBool:
 		return &CV{K: "num", Kind: 2, Z: int64(r.Intn(2))}
 	case tdS0, tdS1, tdMyStr, tdMyInt, tdPS0, tdPS1, tdS0Twin:
+		if (td == tdPS0 || td == tdPS1) && payload == 2 {
+			payload = ptrToZero
+		}
 		return &CV{K: "other", Tag: map[int]int{tdS0: 0, tdS1: 1, tdMyStr: 2, tdMyInt: 3, tdPS0: 4, tdPS1: 5, tdS0Twin: 10}[td], P: payload}
 	case tdStrSlice:
 		return &CV{K: "other", Tag: 8, P: []int{0, 0, 1, 2, 3}[r.Intn(5)]}
@@ -964,6 +983,11 @@ func (engine) Run(ci any) lib.Result {
 		if why := registeredSpec(c, o); why != "" && res.Oracle == "" {
 			res.Oracle = why
 			res.Sig = "registered-fn-not-applied"
+		}
+		// the "single non-zero rule" of the anchored mechanism for a type without a concatenation function
+		if why := nonzeroSpec(c, o); why != "" && res.Oracle == "" {
+			res.Oracle = why
+			res.Sig = "single-nonzero-rule"
 		}
 		// "maps of these": under every key the values are concatenated as a stream of their own type is
 		if why := perKeySpec(c, o); why != "" && res.Oracle == "" {
@@ -1253,6 +1277,47 @@ func registeredSpec(c *Case, o Obs) string {
 	}
 	if o.Class != "val" || o.Val.K != "other" || o.Val.Tag != tag || o.Val.P != sum {
 		return fmt.Sprintf("the function registered for %s gives %d on this chunk list, concatenation returned %s", name, sum, js(o))
+	}
+	return ""
+}
+
+// nonzeroSpec: a statically typed stream (>= 2 chunks) of a type that has no concatenation function (the two
+// structs, the named string / int, the two pointer types, []string, the twin struct) is concatenated by the
+// single non-zero rule: no non-zero chunk - the zero value of the type; exactly one - that chunk; several - an
+// error.  "Zero" is reflect's IsZero on the Go values the harness built (an independent statement: a non-nil
+// pointer to a zero struct and an empty non-nil slice are NOT zero).
+func nonzeroSpec(c *Case, o Obs) string {
+	if c.Any || len(c.Chunks) < 2 || c.Chunks[0].K != "other" || o.Class == "panic" {
+		return ""
+	}
+	tag := c.Chunks[0].Tag
+	if tag == 6 || tag == 7 || tag == 9 {
+		return "" // registered
+	}
+	var nonzero []*CV
+	for _, v := range c.Chunks {
+		if v.K != "other" || v.Tag != tag {
+			return ""
+		}
+		if g := v.toGo(); g != nil && !reflect.ValueOf(g).IsZero() {
+			nonzero = append(nonzero, v)
+		}
+	}
+	name := goTypeName(c.Chunks[0])
+	switch len(nonzero) {
+	case 0:
+		zero := &CV{K: "other", Tag: tag}
+		if o.Class != "val" || !reflect.DeepEqual(o.Val, fromGo(zero.toGo())) {
+			return fmt.Sprintf("every chunk is the zero value of %s (no concatenation function): the result must be the zero value, concatenation returned %s", name, js(o))
+		}
+	case 1:
+		if o.Class != "val" || !reflect.DeepEqual(o.Val, fromGo(nonzero[0].toGo())) {
+			return fmt.Sprintf("exactly one chunk of type %s (no concatenation function) is non-zero, %s: the result must be that chunk, concatenation returned %s", name, js(nonzero[0]), js(o))
+		}
+	default:
+		if o.Class != "err" {
+			return fmt.Sprintf("%d chunks of type %s (no concatenation function) are non-zero: the result must be an error, concatenation returned %s", len(nonzero), name, js(o))
+		}
 	}
 	return ""
 }
